@@ -2170,3 +2170,123 @@ for _P, _R in (("C10", "R10.6"), ("C15", "R15.7")):
       "every chunk after the first is empty (seed C15-h)")
     T(_P, "twin-chunked-lookup", SQL, _LOOKUP_OLD,
       _LOOKUP_CHUNK % "start + 999", "correctly chunked lookup")
+
+# ============================================================ wave h (C04: a second flag-guarded cache)
+_INC_EDITS = [
+    (EV, "        self._update_since_logic_gate_tree = False\n\n    @property\n    def uid",
+     "        self._update_since_logic_gate_tree = False\n"
+     "        self._in_logic_gate_tree: ProcessTree | None = None\n"
+     "        self._update_since_in_logic_gate_tree = False\n\n"
+     "    @property\n"
+     "    def in_logic_gate_tree(self) -> ProcessTree:\n"
+     "        if self._update_since_in_logic_gate_tree:\n"
+     "            self._in_logic_gate_tree = calculate_logic_gates(\n"
+     "                self.in_event_sets\n"
+     "            )\n"
+     "            self._update_since_in_logic_gate_tree = False\n"
+     "        return self._in_logic_gate_tree\n\n"
+     "    @property\n    def uid"),
+    (EV, "        self.in_event_sets.add(EventSet(events))\n",
+     "        self.in_event_sets.add(EventSet(events))\n"
+     "        self._update_since_in_logic_gate_tree = True\n"),
+    (EV, "            if event_type not in event_set\n        }\n\n    def to_event_input",
+     "            if event_type not in event_set\n        }\n"
+     "        self._update_since_in_logic_gate_tree = True\n\n    def to_event_input"),
+]
+MM("C04", "incoming-cache-not-marked-by-loader", _INC_EDITS, "R4.1",
+   "a second flag-guarded cache over in_event_sets; the loader adds incoming "
+   "sets directly and never marks it stale (seed C04-h)")
+TT("C04", "twin-incoming-cache-coherent", _INC_EDITS + [
+    (EV, "            event.in_event_sets.add(\n                EventSet(\n                    [\n"
+         "                        eventSet.eventType\n                        for eventSet in eventSetList\n"
+         "                        for _ in range(eventSet.count)\n                    ]\n                )\n            )\n",
+     "            event.update_in_event_sets(\n                [\n"
+     "                    eventSet.eventType\n                    for eventSet in eventSetList\n"
+     "                    for _ in range(eventSet.count)\n                ]\n            )\n")],
+   "the same second cache with every writer going through the marking method")
+
+# ============================================================ wave h (C07: break filter, R7.16)
+_BF_OLD = '''        if any(
+            out_edge[1].event_type == DUMMY_END_EVENT
+            for out_edge in graph.out_edges([break_event])
+        ) or break_event in get_outnodes_not_in_set(
+            loop.end_events, loop.loop_events, graph
+        ):
+            dummy_break_event = Event(DUMMY_BREAK_EVENT_TYPE)
+            for event, _ in list(graph.in_edges(break_event)):
+'''
+M("C07", "break-exit-of-all-ends", CUG, _BF_OLD,
+  '''        in_events = set(graph.predecessors(break_event))
+        if any(
+            out_event.event_type == DUMMY_END_EVENT
+            for out_event in graph.successors(break_event)
+        ) or loop.end_events.issubset(in_events):
+            dummy_break_event = Event(DUMMY_BREAK_EVENT_TYPE)
+            for event in in_events:
+''', "R7.16", "exit of ALL end events instead of SOME (seed C07-h)")
+T("C07", "twin-break-filter-neighbours", CUG, _BF_OLD,
+  '''        in_events = set(graph.predecessors(break_event))
+        if any(
+            out_event.event_type == DUMMY_END_EVENT
+            for out_event in graph.successors(break_event)
+        ) or break_event in get_outnodes_not_in_set(
+            loop.end_events, loop.loop_events, graph
+        ):
+            dummy_break_event = Event(DUMMY_BREAK_EVENT_TYPE)
+            for event in in_events:
+''', "successors / predecessors instead of out_edges / in_edges")
+M("C07", "dummy-break-no-successor-set", CUG,
+  '''                    dummy_break_event.update_event_sets(
+                        [break_event.event_type]
+                    )
+''', "", "R7.16", "dummy break without successor evidence")
+M("C07", "break-kept-after-replacement", CUG,
+  "            loop.break_events.remove(break_event)\n", "            pass\n",
+  "R7.16", "the replaced break event stays a break event")
+M("C07", "loop-node-ignores-break-exits", LEM,
+  "loop.end_events | loop.break_events", "loop.end_events", "R7.14",
+  "successor sets behind a break never reach the loop node")
+M("C07", "loop-in-sets-from-out-direction", LEM,
+  "                event.in_event_sets, loop_event_types",
+  "                event.event_sets, loop_event_types", "R7.14",
+  "loop node's predecessor sets read from the successor sets")
+M("C07", "rewrite-after-removal", CUG,
+  '''    remove_event_edges_and_event_sets(event_edges, graph)
+    for event in events_into_start_events:
+        graph.add_edge(event, loop_event)''',
+  '''    for event in events_into_start_events:
+        graph.add_edge(event, loop_event)''', "R7.13",
+  "start boundary edges are never removed")
+M("C07", "end-handler-wrong-direction", CUG,
+  '''        for event_list_to_add in event_lists_to_add:
+            event.update_in_event_sets(event_list_to_add)
+    event_edges = {
+        EventEdge(end_event, event)''',
+  '''        for event_list_to_add in event_lists_to_add:
+            event.update_event_sets(event_list_to_add)
+    event_edges = {
+        EventEdge(end_event, event)''', "R7.13",
+  "end boundary rewrites the successor sets of the outside successors")
+M("C07", "mirror-sets-swapped", CUG,
+  "        out_event.remove_event_type_from_event_sets(in_event.event_type)",
+  "        out_event.remove_event_type_from_event_sets(out_event.event_type)",
+  "R7.13", "wrong type removed from the tail's successor sets")
+M("C07", "nodes-removed-before-mirror-sets", CUG,
+  '''    remove_event_edges_and_event_sets(
+        {
+            EventEdge(*edge)
+            for edge in graph.out_edges(loop.loop_events)
+        },
+        graph
+    )
+    # remove all loop events
+    graph.remove_nodes_from(loop.loop_events)''',
+  '''    # remove all loop events
+    graph.remove_nodes_from(loop.loop_events)''', "R7.13",
+  "successors keep predecessor sets naming loop events")
+M("C07", "break-edges-not-cut", SGL,
+  "    remove_event_edges_and_event_sets(break_points_out_edges, graph)\n", "",
+  "R7.15", "the body continues behind a break event")
+M("C07", "pruned-nodes-keep-mirror-sets", SGL,
+  "    remove_event_sets_mirroring_removed_edges(", "    set(", "R7.15",
+  "pruned events stay in the predecessor sets of body events")
